@@ -510,7 +510,7 @@ _C19 = [
      'params': {'text': 'List α', 're_spans': 'List (Int × Int)'}, 'tparams': ['α'],
      'kind': 'generator', 'result': 'List α', 'tie_theorem': 'C19.src_iter_splitlines_eq_model',
      'translator': 'py2lean_c19', 'ext': 'py2lean_c19', 'gen_file': 'strutils_lines',
-     'c19': {'text': ['text'], 'regex': {'_line_ending_re': 're_spans'}, 'group': 1, 'poly_text': True}},
+     'c19': {'text': ['text'], 'regex': {'_line_ending_re': 're_spans'}, 'group': 0, 'poly_text': True}},
     # `key` (a caller-supplied predicate) is the instance [PyRtC19.LineKey α]; `re_spans` is iter_splitlines' parameter
     {'module': 'boltons.strutils', 'qualname': 'indent', 'lean_name': 'indent',
      'params': {'text': 'List α', 'margin': 'List α', 'newline': 'List α', 're_spans': 'List (Int × Int)'},
